@@ -164,6 +164,7 @@ def p1_p2(chk, repo, tier):
 
 # --------------------------------------------------------------------------- P4
 import ast as _ast
+import sympy as sp
 
 
 def pred_signature(ev):
@@ -385,7 +386,7 @@ def p7(chk, repo, tier, only=None, rule="P7"):
                         n_und += 1
                         continue
                     # opaque value-numbering atoms are only meaningful within one run
-                    if any(sy.name.startswith("opq:") for sy in (P.free_symbols | Oe.free_symbols)):
+                    if any(sy.name.startswith("opq:") for sy in (P.free_symbols | Oe.free_symbols)) or any(f.func.__name__ in ("EINSUM", "CAT") for f in (P.atoms(sp.Function) | Oe.atoms(sp.Function))):
                         n_und += 1
                         continue
                     # the symbol of the wrt input (all loop passes)
